@@ -27,6 +27,16 @@ func main() {
 		os.Exit(cmdFn(os.Args[2:]))
 	case "check":
 		os.Exit(cmdCheck(os.Args[2:]))
+	case "ssa":
+		e := loadEngine("/repo")
+		for _, n := range os.Args[2:] {
+			if fn := e.findFunction(n); fn != nil {
+				fn.WriteTo(os.Stdout)
+			} else {
+				fmt.Println("no function", n)
+			}
+		}
+		os.Exit(0)
 	case "replay":
 		os.Exit(cmdReplay(os.Args[2:]))
 	default:
